@@ -55,21 +55,40 @@ func vhLeafC05(t int, vs *vhVals) any {
 		return []int{vs.next(), vs.next()}
 	case 11:
 		return nil
+	case 12: // slice with spare capacity
+		sl := make([]int, 0, 4)
+		return append(sl, vs.next(), vs.next())
+	case 13: // struct whose interface-typed field holds a slice
+		return vhIfaceStruct{A: []int{vs.next(), vs.next()}, N: vs.next()}
+	case 14: // slice with spare capacity, one element longer
+		sl := make([]int, 0, 4)
+		return append(sl, vs.next(), vs.next(), vs.next())
 	}
 	return "other"
 }
 
+type vhIfaceStruct struct {
+	A any
+	N int
+}
+
 // vhBuildC05 builds a tree from digits; mut (applied only when side==1):
 // 0 none, 1 swap the first two elements of the root, 2 one element more,
-// 3 one element fewer, 4 different root kind, 5 different capacity.
+// 3 one element fewer, 4 different root kind, 5 different capacity,
+// 6 both capped (same capacity) and one element fewer, 7 both capped and
+// equal (capacity is applied to both sides for 6 and 7).
 func vhBuildC05(g *vhDigits, depth int, vs *vhVals, mut int) Stack {
+	return vhBuildC05x(g, depth, vs, mut, false)
+}
+
+func vhBuildC05x(g *vhDigits, depth int, vs *vhVals, mut int, capBoth bool) Stack {
 	kind := g.next(4)
 	if mut == 4 {
 		kind = (kind + 1) % 4
 	}
 	var s Stack
 	capArg := 0
-	if mut == 5 {
+	if mut == 5 || capBoth {
 		capArg = 9
 	}
 	switch kind {
@@ -85,7 +104,12 @@ func vhBuildC05(g *vhDigits, depth int, vs *vhVals, mut int) Stack {
 	w := 1 + g.next(3)
 	var elems []any
 	for i := 0; i < w; i++ {
-		t := g.next(16)
+		t := g.next(19)
+		if t >= 16 {
+			t = 12 + (t - 16) // leaf types 12..14
+			elems = append(elems, vhLeafC05(t, vs))
+			continue
+		}
 		switch {
 		case t == 12 && depth > 1:
 			elems = append(elems, vhBuildC05(g, depth-1, vs, 0))
@@ -105,7 +129,7 @@ func vhBuildC05(g *vhDigits, depth int, vs *vhVals, mut int) Stack {
 		}
 	case 2:
 		elems = append(elems, "extra")
-	case 3:
+	case 3, 6:
 		elems = elems[:len(elems)-1]
 	}
 	for _, e := range elems {
@@ -152,7 +176,7 @@ func vhRefEqual(x, y any) bool {
 		return ok && a == b
 	case []int:
 		b, ok := y.([]int)
-		if !ok || len(a) != len(b) {
+		if !ok || len(a) != len(b) || cap(a) != cap(b) {
 			return false
 		}
 		for i := range a {
@@ -180,6 +204,9 @@ func vhRefEqual(x, y any) bool {
 	case vhPrivStruct:
 		b, ok := y.(vhPrivStruct)
 		return ok && a.A == b.A // unexported fields are skipped
+	case vhIfaceStruct:
+		b, ok := y.(vhIfaceStruct)
+		return ok && a.N == b.N && vhRefEqual(a.A, b.A)
 	}
 	return false
 }
@@ -193,8 +220,9 @@ func VH_C05(p []int) {
 		va[k] = nondetInt()
 		vb[k] = nondetInt()
 	}
-	x := vhBuildC05(&vhDigits{d: p[3:]}, p[0], &vhVals{v: va}, 0)
-	y := vhBuildC05(&vhDigits{d: p[3:]}, p[0], &vhVals{v: vb}, p[2])
+	capBoth := p[2] >= 6
+	x := vhBuildC05x(&vhDigits{d: p[3:]}, p[0], &vhVals{v: va}, 0, capBoth)
+	y := vhBuildC05x(&vhDigits{d: p[3:]}, p[0], &vhVals{v: vb}, p[2], capBoth)
 	want := vhRefEqual(x, y)
 	e1 := x.IsEqual(y)
 	e2 := y.IsEqual(x)
@@ -203,7 +231,7 @@ func VH_C05(p []int) {
 	verifAssert((e2 == nil) == want, "verdict-reverse")
 	verifAssert((e1 == nil) == (e2 == nil), "symmetric")
 	// a tree always equals an independently rebuilt copy of itself
-	z := vhBuildC05(&vhDigits{d: p[3:]}, p[0], &vhVals{v: va}, 0)
+	z := vhBuildC05x(&vhDigits{d: p[3:]}, p[0], &vhVals{v: va}, 0, capBoth)
 	verifAssert(x.IsEqual(z) == nil, "equal-to-rebuilt-copy")
 	verifAssert(x.IsEqual(x) == nil, "equal-to-itself")
 	verifReach("end")
@@ -248,4 +276,18 @@ func vhDeref(x any) any {
 		}
 	}
 	return x
+}
+
+// Two slice leaves with the same spare capacity but different lengths, whose
+// common prefix is equal whenever the solver likes.
+func VH_C05_SliceLen(p []int) {
+	a0, a1, a2 := nondetInt(), nondetInt(), nondetInt()
+	b0, b1 := nondetInt(), nondetInt()
+	x := List().Push(append(make([]int, 0, 4), a0, a1, a2))
+	y := List().Push(append(make([]int, 0, 4), b0, b1))
+	verifAssert(x.IsEqual(y) != nil, "longer-vs-shorter")
+	verifAssert(y.IsEqual(x) != nil, "shorter-vs-longer")
+	z := List().Push(append(make([]int, 0, 4), b0, b1))
+	verifAssert(y.IsEqual(z) == nil, "same")
+	verifReach("end")
 }
